@@ -64,3 +64,12 @@ impl EvictionPolicy for Lru {
 }
 
 impl HasCapacity for Lru {}
+
+/// Verification hook: Kani proof harnesses for this module's private items (text lives outside
+/// this repository, in `$SALSA_VERIF_HARNESS_DIR`).
+#[cfg(kani)]
+#[allow(dead_code, unused_imports)]
+pub(crate) mod verif {
+    use super::*;
+    include!(concat!(env!("SALSA_VERIF_HARNESS_DIR"), "/function_lru.rs"));
+}
